@@ -264,23 +264,59 @@ impl<'tcx> Cx<'tcx> {
             return obj(vec![("k", s("int")), ("v", s(v.to_string())),
                             ("bits", n(size.bits())), ("ty", tyj)]);
         }
-        // zero-sized
         if let Ok(val) = c.const_.eval(tcx, self.env, c.span) {
-            match val {
-                ConstValue::ZeroSized => {
-                    return obj(vec![("k", s("zst")), ("ty", tyj)]);
-                }
-                ConstValue::Slice { .. } => {
-                    if let Some(bytes) = val.try_get_slice_bytes_for_diagnostics(tcx) {
-                        return obj(vec![("k", s("str")),
-                                        ("v", s(String::from_utf8_lossy(bytes).to_string())),
-                                        ("ty", tyj)]);
-                    }
-                }
-                _ => {}
+            if let Some(j) = self.const_value(val, cty, 0) {
+                return j;
             }
         }
         obj(vec![("k", s("unknown")), ("dbg", s(format!("{:?}", c.const_))), ("ty", tyj)])
+    }
+
+    /// A fully evaluated constant: scalars, zero-sized values, strings, and aggregates
+    /// (arrays, tuples, structs, enum values) destructured field by field.
+    fn const_value(&mut self, val: ConstValue, ty: Ty<'tcx>, depth: usize) -> Option<J> {
+        let tcx = self.tcx;
+        let tyj = self.ty(ty);
+        if depth > 6 {
+            return None;
+        }
+        match val {
+            ConstValue::Scalar(rustc_middle::mir::interpret::Scalar::Int(si)) => {
+                let size = si.size();
+                let v = si.to_bits(size);
+                return Some(obj(vec![("k", s("int")), ("v", s(v.to_string())),
+                                     ("bits", n(size.bits())), ("ty", tyj)]));
+            }
+            ConstValue::ZeroSized => return Some(obj(vec![("k", s("zst")), ("ty", tyj)])),
+            ConstValue::Slice { .. } => {
+                if let Some(bytes) = val.try_get_slice_bytes_for_diagnostics(tcx) {
+                    return Some(obj(vec![("k", s("str")),
+                                         ("v", s(String::from_utf8_lossy(bytes).to_string())),
+                                         ("ty", tyj)]));
+                }
+                return None;
+            }
+            _ => {}
+        }
+        let aggregate = match ty.kind() {
+            ty::TyKind::Array(..) | ty::TyKind::Tuple(..) => true,
+            ty::TyKind::Adt(def, _) => !def.is_union(),
+            _ => false,
+        };
+        if !aggregate {
+            return None;
+        }
+        let d = tcx.try_destructure_mir_constant_for_user_output(val, ty)?;
+        let mut fields = Vec::new();
+        for (fv, fty) in d.fields.iter() {
+            fields.push(self.const_value(*fv, *fty, depth + 1)?);
+        }
+        Some(obj(vec![
+            ("k", s("agg")),
+            ("variant", d.variant.map(|v| n(v.as_u32())).unwrap_or(J::Null)),
+            ("fields", J::Arr(fields)),
+            ("ty", tyj),
+        ]))
     }
 
     fn resolve(&mut self, def: DefId, args: GenericArgsRef<'tcx>) -> J {
@@ -361,6 +397,8 @@ impl<'tcx> Cx<'tcx> {
                 let cj = self.constant(owner, c);
                 obj(vec![("k", s("const")), ("c", cj)])
             }
+            Operand::RuntimeChecks(rc) => obj(vec![("k", s("runtime_checks")), ("which", s(format!("{:?}", rc)))]),
+            #[allow(unreachable_patterns)]
             other => obj(vec![("k", s("other")), ("dbg", s(format!("{:?}", other)))]),
         }
     }
@@ -438,6 +476,10 @@ impl<'tcx> Cx<'tcx> {
                         ("path", s(tcx.def_path_str(*def))),
                         ("variant", n(variant.as_u32())),
                         ("union_field", active.map(|f| n(f.as_u32())).unwrap_or(J::Null)),
+                    ]),
+                    AggregateKind::Closure(def, _) => obj(vec![
+                        ("k", s("closure")),
+                        ("path", s(tcx.def_path_str(*def))),
                     ]),
                     other => obj(vec![("k", s("other")), ("dbg", s(format!("{:?}", other)))]),
                 };
@@ -676,6 +718,7 @@ impl<'tcx> Cx<'tcx> {
             ("reachable", J::Bool(reachable)),
             ("span", self.span(tcx.def_span(def))),
             ("sig", sig),
+            ("closure", J::Bool(matches!(tcx.def_kind(def), DefKind::Closure))),
             ("body", bj),
             ("promoted", J::Arr(promoted)),
         ])
